@@ -208,6 +208,11 @@ impl Layout {
         self.start_to_reserved.remove(&start)
     }
 
+    /// True while freed extents are waiting for the next flush to become reusable.
+    pub fn has_pending_holes(&self) -> bool {
+        !self.pending_holes.is_empty()
+    }
+
     pub fn promote_pending_holes(&mut self, name: &str) {
         let count = self.pending_holes.len();
         if count > 0 {
